@@ -1243,6 +1243,10 @@ func (env *ExprEnv) call(e *ast.CallExpr) TV {
 		k := env.coerce(env.eval(e.Args[1]), mt.Key(), v.sortOf(mt.Key()))
 		dom, _ := v.mapArrays(mt)
 		return TV{T: fmt.Sprintf("(and (not (= %s 0)) (select %s %s))", m.T, v.rd(env.heapNow(), dom, m.T), k.T), Ty: types.Typ[types.Bool], Sort: "Bool"}
+	case "now":
+		// now(): logical time = number of calls made so far by the function under verification
+		v.regArray("CLOCK", fmt.Sprintf("(Array Int %s)", v.idx()))
+		return TV{T: v.rd(env.heapNow(), "CLOCK", "0"), Ty: types.Typ[types.Int], Sort: v.idx()}
 	case "locked":
 		// locked(x.mu): this thread holds lock field mu of object x (read or write)
 		se, ok := e.Args[0].(*ast.SelectorExpr)
